@@ -98,7 +98,17 @@ def registryPartial : List (String × (Text → Option (Res (Text × J)))) :=
     let dec := match a.findIdx? (fun ch => ch == ',' || ch == '.') with | some p => a.length - p - 1 | none => 0
     if isAsciiT c && dec > 4 then none
     else some (withTag "37H" (F37H.parse c) F37H.ser F37H.json)
-  [("Field37H", f37), ("Field36", fun c => some (withTag "36" (F36.parse c) plainDecimal (fun d => .obj [("rate", J.dec d)]))),
+  -- 61 prints two decimals: comparable when at most two were written and the digits fit
+  let f61 : Text → Option (Res (Text × J)) := fun c =>
+    let r1 := c.drop 6
+    let r2 := if decide (4 ≤ r1.length) && (r1.take 4).all Char.isDigit then r1.drop 4 else r1
+    let r3 := r2.dropWhile Char.isAlpha
+    let a := r3.takeWhile (fun ch => ch.isDigit || ch == ',' || ch == '.')
+    let intD := (a.takeWhile Char.isDigit).length
+    let dec := match a.findIdx? (fun ch => ch == ',' || ch == '.') with | some p => a.length - p - 1 | none => 0
+    if isAsciiT c && (dec > 2 || intD + 2 > 15) then none
+    else some (withTag "61" (F61.parse c) F61.ser F61.json)
+  [("Field61", f61), ("Field37H", f37), ("Field36", fun c => some (withTag "36" (F36.parse c) plainDecimal (fun d => .obj [("rate", J.dec d)]))),
    ("Field90C", f90 "90C"), ("Field90D", f90 "90D"), ("Field34F", f34), ("Field19", f19),
    ("Field60F", balance "60F"), ("Field60M", balance "60M"), ("Field62F", balance "62F"), ("Field62M", balance "62M"),
    ("Field64", balance "64"), ("Field65", balance "65"),
